@@ -1,5 +1,5 @@
-import CardVerif.Spec.Strength
-import CardVerif.Model.Omaha
+import CardModel.Spec.Strength
+import CardModel.Model.Omaha
 import CardVerif.Props.C05
 import CardVerif.Proofs.Strength
 /-!
